@@ -80,6 +80,13 @@ func runOnce(t *testing.T, sp spec, s Script) evid.Outcome {
 		o.Skip = "harness panic (a defect of the harness, not a verdict): " + firstLine(tr.HarnessPanic)
 		return o
 	}
+	if sp.id == "C19" && tr.Spin && tr.SpinAfterTerm {
+		// termination had been observed and yet the run never became quiescent, twice: something of
+		// the discipline is still running (a goroutine that spins)
+		o.Err = fmt.Errorf("after termination was observed a goroutine keeps running and the run never becomes quiescent: %s", firstLine(tr.Deadlock))
+		o.NoShrink = true
+		return o
+	}
 	if sp.id == "C19" && tr.RetriedAfterSpin {
 		o.Skip = "first attempt of the case was abandoned; its goroutines would be counted as leaks"
 		return o
